@@ -36,6 +36,7 @@ CONSTANTS
   MaxSess,      \* attachment sessions per client
   MaxCompact,   \* compactions
   MaxUndo,      \* undo/redo calls per client
+  MaxFaults,    \* injected storage faults / lost responses per behaviour
   MinLen,       \* a behaviour may also finish once it has this many steps (lifecycle
                 \* features can make it impossible to use up the edit budget)
   BuildBack,    \* Build(n) rebuilds the document at head-n for n in 0..BuildBack
@@ -44,7 +45,7 @@ CONSTANTS
                 \* alphabet would otherwise starve syncs). No effect on the state graph.
 
 FeatAll == {"detach", "reattach", "remove", "compact", "force", "deactivate", "pushonly",
-            "gcoff", "build", "evict", "undo", "lateattach", "idle", "fail", "nopres", "kf-deactivate-removed"}
+            "gcoff", "build", "evict", "undo", "lateattach", "idle", "fail", "nopres", "kf-deactivate-removed", "fault", "kf-retry-dup"}
 
 Doc == "d1"
 Clients == {ClientSeq[i] : i \in DOMAIN ClientSeq}
@@ -61,7 +62,7 @@ Init ==
   /\ srv = [log |-> <<>>, epoch |-> 0, removed |-> FALSE, exists |-> FALSE,
             ci |-> [c \in Clients |-> [st |-> "none", s |-> 0, c |-> 0, epoch |-> 0]],
             rows |-> [c \in Clients |-> [has |-> FALSE, vv |-> NoVV]],
-            ncompact |-> 0, cache |-> -1, setup |-> FALSE]
+            ncompact |-> 0, cache |-> -1, setup |-> FALSE, nfaults |-> 0]
   /\ cl = [c \in Clients |-> [FreshRep EXCEPT !.st = "none"] @@ [active |-> TRUE, edits |-> 0, syncs |-> 0, nundo |-> 0]]
   /\ hist = <<>>
   /\ done = FALSE
@@ -238,6 +239,33 @@ Sync(c, pushonly) ==
   /\ Log([a |-> "sync", c |-> c, d |-> Doc, opt |-> [pushonly |-> pushonly]])
   /\ UNCHANGED done
 
+\* C05: a sync whose handling fails at one storage call (error returned before or
+\* after the call took effect) or whose response is lost; the client keeps its
+\* state and resends the identical pack with its next sync.
+\*   "CreateChangeInfos:before"            nothing happened
+\*   "UpdateClientInfoAfterPushPull:after" everything is stored, the response is lost
+\*   the points in between (rows stored, checkpoint not) are known finding
+\*   KF-RETRY-DUPLICATES and generated only with feature kf-retry-dup
+FaultPoints == {"CreateChangeInfos:before", "UpdateClientInfoAfterPushPull:after"} \cup
+               (IF "kf-retry-dup" \in Feat
+                THEN {"CreateChangeInfos:after", "FindChangeInfosBetweenServerSeqs:before", "UpdateMinVersionVector:before",
+                      "UpdateMinVersionVector:after", "UpdateClientInfoAfterPushPull:before"}
+                ELSE {})
+FaultySync(c, fp) ==
+  /\ ~done /\ SetupOver /\ "fault" \in Feat /\ srv.nfaults < MaxFaults
+  /\ cl[c].active /\ cl[c].st = "attached" /\ cl[c].syncs < MaxSyncs /\ cl[c].epoch = srv.epoch /\ ~srv.removed
+  /\ LET h == Handle(srv, Request(c, cl[c], "attached", FALSE, FALSE))
+         \* what the fault leaves behind on the server
+         s2 == CASE fp = "CreateChangeInfos:before" -> srv
+                 [] fp = "UpdateClientInfoAfterPushPull:after" -> h.srv
+                 [] fp \in {"UpdateMinVersionVector:after", "UpdateClientInfoAfterPushPull:before"} ->
+                      [h.srv EXCEPT !.ci = srv.ci]                       \* rows + vector row stored, checkpoint not
+                 [] OTHER -> [srv EXCEPT !.log = h.srv.log]              \* rows stored only
+     IN srv' = [s2 EXCEPT !.nfaults = @ + 1]
+  /\ cl' = [cl EXCEPT ![c] = [@ EXCEPT !.syncs = @ + 1]]
+  /\ Log([a |-> "sync", c |-> c, d |-> Doc, opt |-> [pushonly |-> FALSE, fault |-> fp]])
+  /\ UNCHANGED done
+
 Detach(c) ==
   /\ ~done /\ SetupOver /\ "detach" \in Feat /\ cl[c].active /\ cl[c].st = "attached"
   /\ LET r1 == NewChange(c, cl[c], FALSE)               \* presence clear
@@ -311,6 +339,7 @@ Next ==
        \/ \E op \in Alphabet, how \in {"err", "panic"} : FailedEdit(c, op, how)
        \/ \E w \in 1..SyncWeight : Sync(c, FALSE)
        \/ Sync(c, TRUE)
+       \/ \E fp \in FaultPoints : FaultySync(c, fp)
        \/ Detach(c) \/ Remove(c) \/ Deactivate(c) \/ Undo(c) \/ Redo(c)
   \/ Setup
   \/ Compact(FALSE) \/ Compact(TRUE)
